@@ -8,6 +8,8 @@ A case is a dict (self-contained, JSON-serialisable):
           built with type(); a class without bases derives from txdbus.objects.DBusObject
   objects [[path, class index], ...]           exported, in this order, on a fresh DBusObjectHandler
   raw     the method call as wire bytes (fed through message.parseMessage); `call` repeats it readably
+          (call['serial'], when present, is the serial the caller put on the call - any non-zero UINT32 - otherwise
+          the small counter value the library allocated when the bytes were built)
   out     what the invoked user method does:
           ['value', form] | ['fired', form] (returns an already fired Deferred) | ['raise', exn] |
           ['failed', exn] (returns an already failed Deferred) |
@@ -27,6 +29,7 @@ The handler's connection is a stub recording sendMessage; every reply is re-pars
 import inspect
 import json
 import re
+import struct
 import sys
 
 from harness import common
@@ -69,6 +72,8 @@ ASSUMPTIONS = [
     'and spec with the surrogate replaced by NUL - both make the text "not a DBus string": one error reply of the right name '
     'is required, its message is not compared',
     'messages stay below the 128 MiB limit; return signatures contain no UNIX_FD',
+    'the serial of a call is any non-zero UINT32 (0 is not a valid serial in the DBus specification and is not generated); '
+    'the reply is read back from its wire bytes, and only the NUMBER in its REPLY_SERIAL field is compared with the serial of the call',
     'a returned value that Model/Marshal.v declares unmodelled (EUnmodelled: an int where a double is declared, a dbusOrder '
     'object where a basic type is declared) is generated but not compared (counted as encoder-unmodelled)',
 ]
@@ -944,7 +949,23 @@ def gen_call(rng, w, E):
             'sig': sigarg, 'body': body, 'sender': sender, 'expect': expect}
     if rng.random() < 0.15:
         call['xfield'] = gen_xfield(rng)
+    if rng.random() < 0.3:
+        call['serial'] = gen_serial(rng)
     return call, sig_out, props
+
+
+SERIAL_EDGES = [1, 2, 0xff, 0x100, 0xffff, 0x10000, 2 ** 31 - 1, 2 ** 31, 2 ** 31 + 1, 2 ** 32 - 2, 2 ** 32 - 1]
+
+
+def gen_serial(rng):
+    """a serial a caller may use: any non-zero UINT32 (callers that have been running for long, or that do not count
+    up from 1), boundary values and both halves of the range"""
+    r = rng.random()
+    if r < 0.4:
+        return rng.choice(SERIAL_EDGES)
+    if r < 0.7:
+        return rng.randrange(2 ** 31, 2 ** 32)
+    return rng.randrange(1, 2 ** 32)
 
 
 def gen_xfield(rng):
@@ -973,6 +994,9 @@ def make_case(w, call, out, E, props=None):
     # other header flag bits (NO_AUTO_START 0x2, ALLOW_INTERACTIVE_AUTHORIZATION 0x4) in combination with the
     # no-reply bit: whether a reply is expected depends on bit 0x1 alone
     raw[2] |= (0, 0, 2, 4, 6)[(len(raw) + raw[8] + 3 * len(call['member'])) % 5]
+    if call.get('serial') is not None:
+        # the serial the CALLER chose: any non-zero UINT32 (bytes 8..11 of the fixed header, in the message's byte order)
+        raw[8:12] = struct.pack('<I' if raw[0] == 0x6c else '>I', call['serial'])
     c = {'ifaces': w['ifaces'], 'classes': w['classes'], 'objects': w['objects'], 'call': call, 'out': out, 'raw': bytes(raw)}
     if props is not None:
         c['props'] = props_fid(props, E)
@@ -1058,6 +1082,34 @@ def gen_builtin(ctx, E):
                     call = {'path': path, 'iface': iface, 'member': member, 'sig': sig, 'body': body, 'sender': sender,
                             'expect': expect}
                     yield make_case(w, call, ['value', [10]], E, props)
+
+
+def gen_serial_grid(ctx, E):
+    """the whole range of serials a caller may put on a call (non-zero UINT32: small, around 2**31, the largest, and
+    random ones from either half) x every kind of target (implementation, unknown object / member, wrong signature,
+    handler's own built-ins, Properties) x every kind of outcome x reply expected or not, on one small world"""
+    rng = ctx.rng
+    w = small_worlds()[0]
+    serials = [1, 2 ** 31 - 1, 2 ** 31, 2 ** 32 - 1, rng.randrange(2 ** 31, 2 ** 32), rng.randrange(2 ** 31, 2 ** 32),
+               rng.randrange(1, 2 ** 31)]
+    outs = [['value', [0, 5]], ['value', [3, b'z']], ['raise', ['ValueError', ['absent'], 'boom']],
+            ['raise', ['E', ['str', 'org.my.E'], 'why']], ['raise', ['Bad-Name', ['absent'], 'why']],
+            ['fired', [0, 5]], ['failed', ['KeyError', ['none'], 't']], ['deferred', ['value', [0, 6]]],
+            ['deferred', ['fail', ['X', ['str', 'bad name'], 'later']]], ['deferred', None]]
+    targets = [('/a', 'org.ex.A', 'Foo', 'i', [[0, 7]], None, o) for o in outs]
+    targets += [('/zz', 'org.ex.A', 'Foo', 'i', [[0, 7]], None, outs[0]), ('/a', 'org.ex.A', 'Nope', 'i', [[0, 7]], None, outs[0]),
+                ('/a', None, 'Nope', None, [], None, outs[0]), ('/a', 'org.ex.A', 'Foo', 's', [[3, b'q']], None, outs[0]),
+                ('/a', None, 'Foo', None, [], None, outs[0]),
+                ('/a', PEER, 'Ping', None, [], None, outs[0]), ('/a', INTRO, 'Introspect', None, [], None, outs[0]),
+                ('/', OM, 'GetManagedObjects', None, [], None, outs[0]),
+                ('/a', PROPS, 'GetAll', 's', [[3, b'org.ex.A']], 'GetAll', outs[0]),
+                ('/a', PROPS, 'Get', 'ss', [[3, b'org.ex.A'], [3, b'p']], 'Get', outs[0])]
+    for serial in serials:
+        for path, iface, member, sig, body, props, out in targets:
+            for expect in (True, False):
+                call = {'path': path, 'iface': iface, 'member': member, 'sig': sig, 'body': body, 'sender': SENDER,
+                        'expect': expect, 'serial': serial}
+                yield make_case(w, call, out, E, props)
 
 
 def as_sequence(w, cases):
@@ -1278,9 +1330,16 @@ def run(ctx, res):
                 'to an object of that class or of a subclass, members drawn from both revisions, with and without interface '
                 'header, plus a fixed base / subclass pair; compared with the model, and judged by the Coq verdict where '
                 'every reading of a re-declared name agrees (ASSUMPTIONS). '
+                '(f) CALL SERIALS over the whole UINT32 range: about 30 %% of the random calls (also inside sequences and on '
+                're-declared worlds) carry a serial chosen by the caller - boundary values (1, 0xff, 0x100, 0xffff, 0x10000, 2**31-1, '
+                '2**31, 2**31+1, 2**32-2, 2**32-1), random ones from the upper half and from the whole range - instead of the small '
+                'counter value the library allocates, plus a fixed grid of 7 serials (1, 2**31-1, 2**31, 2**32-1, three random) x '
+                '20 targets / outcomes (implementation returning / raising / Deferred, unknown object / member, wrong signature, '
+                'built-ins, Properties) x reply expected or not; the model reads the serial from the same wire bytes. '
                 'A case is non-trivial if a reply was sent or user code ran; distinct by hash' % (nrand, len(ARG_TYPES), stride,
                                                                                                   ctx.n(600, 10000)))
     evaluate(ctx, list(gen_builtin(ctx, E)), res)
+    evaluate(ctx, list(gen_serial_grid(ctx, E)), res)
     evaluate(ctx, list(gen_small(ctx, E, stride)), res)
     batch = []
     for c in gen_random(ctx, nrand, E):
